@@ -5708,6 +5708,7 @@ class CodegenCtx:
         self.generic_fail_state = dfa_compile_ctx.generic_fail_state
         self.program_name = program_name
 
+    @diagnoses_recursion_limit
     def generate_header(self):
         result = Outputter()
         if ProgramData.do(ProgramFlag.USE_PRAGMA_ONCE):
@@ -5770,6 +5771,7 @@ class CodegenCtx:
 
         return result.value()
 
+    @diagnoses_recursion_limit
     def generate_source(self):
         result = Outputter()
         result.add(f"// ============================" + "=" * len(self.program_name))
